@@ -22,7 +22,8 @@ def run(ctx):
     ctx.extract(["keywords", "flattenuse"])
     # two theorem modules, so that a change to the macro breaks exactly the T5 obligations and a change to the
     # lexer's keyword table exactly the others
-    ok1 = ctx.prove(PROPS, extra_modules=["RotoV.Lemmas.Registration", "RotoV.Model.Registration"])
+    ok1 = ctx.prove(PROPS, extra_modules=["RotoV.Lemmas.Registration", "RotoV.Lemmas.RegistrationUse",
+                                          "RotoV.Model.Registration"])
     first = {k: ctx.coverage.get(k) for k in ("theorems", "nonvacuity_examples", "axioms")}
     ok2 = ctx.prove(PROPS_USE, extra_modules=["RotoV.Lemmas.UseTree", "RotoV.Model.UseTree"])
     if first["theorems"] and ok2:  # prove() overwrites these: report both modules
